@@ -5,7 +5,8 @@
 (* (#PCDATA), EMPTY, or have a content model of their own (Kid: (x, y?));   *)
 (* validity is constructive as in Schema (DocsOf / Accepts).  Attribute     *)
 (* lists: CDATA, ID, IDREF, NMTOKEN, NMTOKENS, enumeration with #REQUIRED,  *)
-(* #IMPLIED, #FIXED and defaults.  A root of ANY / mixed content is drawn   *)
+(* #IMPLIED, #FIXED and defaults, namespaces declared by #FIXED xmlns       *)
+(* attributes.  A root of ANY / mixed content is drawn                      *)
 (* as a separate variant.                                                   *)
 (***************************************************************************)
 EXTENDS Schema, Json
@@ -18,7 +19,7 @@ DItemA == {El("a", tp, o[1], o[2]) : tp \in {"string", "EMPTY"}, o \in DOccs}
 DItemB == {El("b", tp, o[1], o[2]) : tp \in {"string", "Kid"}, o \in DOccs}
 DItemC == {[k |-> "none"]} \cup {Grp(k, o[1], o[2], <<El("c", "string", 1, 1), El("d", "string", m, 1)>>) :
                                    k \in {"seq", "choice"}, o \in DOccs, m \in {0, 1}}
-Slots == << {"seq", "choice"}, DOccs, DItemA, DItemB, DItemC, 1..5, {"model", "mixed", "any"}, 0..MaxDocIdx >>
+Slots == << {"seq", "choice"}, DOccs, DItemA, DItemB, DItemC, 1..7, {"model", "mixed", "any"}, 0..MaxDocIdx >>
 NSlots == Len(Slots)
 Init == parts = <<>>
 Next == Len(parts) < NSlots /\ \E c \in Slots[Len(parts) + 1] : parts' = Append(parts, c)
@@ -32,6 +33,11 @@ Attrs == CASE parts[6] = 1 -> <<>>
            [] parts[6] = 3 -> << [name |-> "kind", tp |-> "(x|y)", mode |-> "DEFAULT", value |-> "x"], [name |-> "n", tp |-> "NMTOKEN", mode |-> "IMPLIED", value |-> NONE] >>
            [] parts[6] = 4 -> << [name |-> "v", tp |-> "CDATA", mode |-> "FIXED", value |-> "1"], [name |-> "ns", tp |-> "NMTOKENS", mode |-> "IMPLIED", value |-> NONE] >>
            [] parts[6] = 5 -> << [name |-> "r", tp |-> "IDREF", mode |-> "IMPLIED", value |-> NONE], [name |-> "id", tp |-> "ID", mode |-> "IMPLIED", value |-> NONE] >>
+           \* namespaces the DTD way: #FIXED xmlns attributes (a default namespace; two prefixes used by attributes)
+           [] parts[6] = 6 -> << [name |-> "xmlns", tp |-> "CDATA", mode |-> "FIXED", value |-> "urn:d"], [name |-> "n", tp |-> "NMTOKEN", mode |-> "IMPLIED", value |-> NONE] >>
+           [] parts[6] = 7 -> << [name |-> "id", tp |-> "CDATA", mode |-> "REQUIRED", value |-> NONE],
+                                 [name |-> "x:lang", tp |-> "CDATA", mode |-> "IMPLIED", value |-> NONE], [name |-> "y:rev", tp |-> "NMTOKEN", mode |-> "IMPLIED", value |-> NONE],
+                                 [name |-> "xmlns:x", tp |-> "CDATA", mode |-> "FIXED", value |-> "urn:x"], [name |-> "xmlns:y", tp |-> "CDATA", mode |-> "FIXED", value |-> "urn:y"] >>
 Docs == DocsOf(Root)
 Doc == Docs[(parts[8] % Len(Docs)) + 1]
 
